@@ -610,6 +610,11 @@ def stage_r_call(rep, rng, n):
                 rep.fail('R:make_call - model says unterminated call for %r, make runs it: %r' % (t, rv),
                          {'obligation': 'R:make_call', 'args_text': t, 'make': rv}, found_input=False)
             continue
+        if any(l.endswith('\\') or '$$' in l for l in lines):
+            # outside the validated fragment: a command line ending in a backslash continues on the next line of the
+            # define; $$ reaches sh as its process id. The writer never produces either (both characters are quoted).
+            rep.count('R:call continuation or pid')
+            continue
         words = [dec('sh.words', x) for x in common.model_batch([('sh.words', [uw, l]) for l in lines])]
         if any(w is None for w in words):
             # the sh model does not cover the line (an unquoted $, an open quote): let the real dash split the command
@@ -675,6 +680,174 @@ def stage_oracle_call(rep, rng, n):
     return bad
 
 
+# ----------------------------------------------------------------------------- channel N: nested test drivers
+class _MockEnv:
+    @staticmethod
+    def run_arguments(cmd, lang=None):
+        return list(cmd) if isinstance(cmd, (list, tuple)) else cmd
+
+
+class _MockDefaults:
+    def remove(self, x):
+        pass
+
+
+class _MockContext:
+    """What builtins.tests.Test.__init__ touches: env.run_arguments and build['tests'] / build['defaults']."""
+    def __init__(self):
+        from bfg9000.builtins.tests import TestInputs
+        self.env = _MockEnv()
+        self.build = {'tests': TestInputs(), 'defaults': _MockDefaults()}
+
+
+NESTED_WORDS = ['a b', "it's", '$x', 'a$$b', '$(V)', '${v}', "q'$", "'", "''", '#h', '~x', 'a,b', '(x)', '\\', 'x\\', '"q"', ' ', '', 'é',
+                'a\xa0b', '&&', ';', '*', 'A=1', '-n', '@x', '%d', '$', '$$', "'$'", "a'b'c"]
+
+
+def nested_word(rng, rep=None):
+    return rng.choice(NESTED_WORDS) if rng.random() < 0.4 else gen.arg_string(rng, rep, maxlen=6)
+
+
+def gen_test_tree(rng, depth, lead, plain=False):
+    """A tree of tests: {'words': [...python objects...], 'enc': items encoding, 'kids': [...]}. `lead`: words every command
+    starts with (the recorder, so that the oracle can run the command lines); plain: only str words."""
+    nwords = rng.choice([0, 0, 1, 1, 2, 3])
+    words, enc = list(lead), [[[2, w]] for w in lead]
+    for _ in range(nwords):
+        if plain or rng.random() < 0.8:
+            s = nested_word(rng)
+            if any(c in s for c in '\n\r\0'):
+                continue
+            words.append(s); enc.append([[2, s]])
+        else:
+            e, o = gen_jbos(rng)
+            words.append(o); enc.append(e)
+    if not words:
+        words, enc = ['w'], [[[2, 'w']]]
+    kids = []
+    if depth > 0 and rng.random() < 0.8:
+        kids = [gen_test_tree(rng, depth - 1 if rng.random() < 0.6 else 0, lead, plain) for _ in range(rng.randint(0, 3))]
+    return {'words': words, 'enc': enc, 'kids': kids}
+
+
+def build_real_tests(ctx, tree, parent=None, env=None):
+    from bfg9000.builtins.tests import TestCase, TestDriver
+    if tree['kids']:
+        t = TestDriver(ctx, list(tree['words']), **({'parent': parent} if parent else {'environment': env or {}}))
+        for k in tree['kids']:
+            build_real_tests(ctx, k, parent=t)
+    else:
+        t = TestCase(ctx, list(tree['words']), **({'driver': parent} if parent else {'environment': env or {}}))
+    return t
+
+
+def enc_tree(tree, env=None):
+    items = []
+    for k, v in (env or {}).items():
+        items.append([b for b in ([2, k] if k else None, [1, '='], [2, v] if v else None) if b])
+    return [items + tree['enc'], [enc_tree(k) for k in tree['kids']]]
+
+
+def stage_w_nested(rep, rng, n):
+    """W tie of channel N: the real tests._build_commands (TestCase/TestDriver objects on a mocked context, the real
+    Makefile writer and pshell.local_env) against MakeNested.test_recipe."""
+    from io import StringIO
+    from bfg9000.backends.make.syntax import Makefile
+    from bfg9000.builtins.tests import _build_commands
+    from bfg9000.shell import posix as pshell
+    uw, us = gen.uni_tables()
+    calls, impl = [], []
+    for _ in range(n):
+        ctx = _MockContext()
+        mk = Makefile('build.bfg')
+        trees = []
+        for _ in range(rng.randint(1, 2)):
+            tree = gen_test_tree(rng, rng.choice([0, 1, 2, 2, 3]), [])
+            env = {}
+            if rng.random() < 0.3:
+                env = {rng.choice(['VAR', 'A_1', 'x']): nested_word(rng)}
+                env = {k: v for k, v in env.items() if not any(c in v for c in '\n\r\0')}
+            build_real_tests(ctx, tree, env=env)
+            trees.append(enc_tree(tree, env))
+        try:
+            recipe, _ = _build_commands(ctx.build['tests'].tests, mk.writer, pshell.local_env)
+            lines = []
+            for cmd in recipe:
+                w = mk.writer(StringIO())
+                w.write_shell(cmd)
+                lines.append('\t' + w.stream.getvalue())
+            iv = lines
+        except ValueError:
+            iv = None
+        calls.append(('make.test_recipe', [uw, us, trees])); impl.append(iv)
+        rep.case('nest:%r' % (trees,), True)
+
+        def depth(t):
+            return 1 + max([depth(k) for k in t[1]] or [0])
+        rep.count('nested:depth=%d' % max(depth(t) for t in trees))
+    rep.sample({'stage': 'W:nested', 'arg': calls[-1][1]})
+    return common.compare_model(rep, 'W:tests._build_commands', calls, impl,
+                                lambda name, r: d_opt(lambda x: d_list(d_str, x), r))
+
+
+def check_delivery(tree, got_argv, lead_n):
+    """Does the argv a test's process received deliver the tree? Children arguments are run by the real dash, as a test
+    driver does (one-word children without tests of their own are file arguments and must arrive verbatim)."""
+    words = tree['words']
+    nk = len(tree['kids'])
+    if got_argv is None or len(got_argv) != len(words) + nk or got_argv[:len(words)] != words:
+        return 'test %r (+%d children) received %r' % (words, nk, got_argv)
+    for k, a in zip(tree['kids'], got_argv[len(words):]):
+        if len(k['words']) == 1 and not k['kids']:
+            if a != k['words'][0]:
+                return 'one-word child %r arrives as %r' % (k['words'][0], a)
+            continue
+        rc, recs, _ = shtools.dash_run(a)
+        sub = ([recs[0]['argv0']] + recs[0]['argv']) if rc == 0 and len(recs) == 1 else None
+        err = check_delivery(k, sub, lead_n)
+        if err:
+            return err + ' (command line %r)' % (a,)
+    return None
+
+
+def stage_oracle_nested(rep, rng, n):
+    """Direct check on the implementation, channel N: the real _build_commands + Makefile writer, the real make, and one
+    real dash per nesting level; every test must receive exactly its declared words."""
+    from io import StringIO
+    from bfg9000.backends.make.syntax import Makefile
+    from bfg9000.builtins.tests import _build_commands
+    from bfg9000.shell import posix as pshell
+    bad = 0
+    for i in range(n):
+        ctx = _MockContext()
+        mk = Makefile('build.bfg')
+        tree = gen_test_tree(rng, rng.choice([1, 2, 2, 3]), [shtools.ARGVREC], plain=True)
+        if i < len(NESTED_WORDS):      # every corpus word once as the argument of a leaf at depth 2
+            w = NESTED_WORDS[i]
+            tree['kids'].append({'words': [shtools.ARGVREC, 'mid'], 'enc': None,
+                                 'kids': [{'words': [shtools.ARGVREC, 'leaf', w, 'z'], 'enc': None, 'kids': []},
+                                          {'words': [w or 'solo'], 'enc': None, 'kids': []}]})
+        build_real_tests(ctx, tree)
+        recipe, _ = _build_commands(ctx.build['tests'].tests, mk.writer, pshell.local_env)
+        mk.rule('test', recipe=recipe, phony=True)
+        o = StringIO()
+        mk.write(o)
+        rc, recs, out = shtools.make_run(o.getvalue(), 'test')
+        got = ([recs[0]['argv0']] + recs[0]['argv']) if rc == 0 and len(recs) == 1 else None
+        err = check_delivery(tree, got, 1)
+
+        def strip(t):
+            return [t['words'][1:], [strip(k) for k in t['kids']]]
+        rep.case('on:%r' % (strip(tree),), True)
+        rep.count('channel:nested')
+        if err:
+            if rep.fail('Make backend, nested test drivers: ' + err,
+                        {'channel': 'nested', 'tree': strip(tree), 'makefile': o.getvalue(), 'make_output': out[-300:], 'top_argv': got}):
+                bad += 1
+    rep.stage('oracle:test drivers->make->sh^k', cases=n, failures=bad)
+    return bad
+
+
 def run(rep):
     rng = random.Random(rep.seed)
     thorough = rep.tier == 'thorough'
@@ -684,11 +857,13 @@ def run(rep):
     stage_r_dash(rep, rng, n // 2)
     dis += stage_w_make(rep, rng, n // 2)
     dis += stage_w_call(rep, rng, n // 3)
+    dis += stage_w_nested(rep, rng, n // 3)
     stage_r_make(rep, rng, 300 if thorough else 60)
     stage_r_call(rep, rng, 600 if thorough else 150)
     found = stage_oracle_quote(rep, rng, n // 2 * (10 if dis else 1))
     found += stage_oracle_make(rep, rng, (400 if thorough else 60) * (5 if dis else 1))
     found += stage_oracle_call(rep, rng, (400 if thorough else 70) * (5 if dis else 1))
+    found += stage_oracle_nested(rep, rng, (300 if thorough else 50) * (5 if dis else 1))
     found += stage_oracle_cmdword(rep)
     from . import c06
     for i in range(12 if thorough else 2):
